@@ -95,13 +95,18 @@ theorem WFrame_set {s : St} {i : Nat} {e e' : Entry} (t : St) (hi : s.outq[i]? =
 macro "wframe" hi:ident : tactic =>
   `(tactic| exact WFrame_set _ $hi rfl rfl rfl rfl rfl rfl rfl rfl rfl rfl rfl rfl rfl rfl rfl rfl rfl rfl rfl rfl rfl rfl rfl (by simp <;> intro h <;> simp [h]))
 
-theorem wTop_frame {s s' : St} {i : Nat} (hs : wTop s i = some s') : WFrame s s' := by
+theorem wTop_frame {P : Params} {s s' : St} {i o0 : Nat} (hs : wTop P s i o0 = some s') : WFrame s s' := by
   unfold wTop at hs
   split at hs; · cases hs
   rename_i e hi
   split at hs; · cases hs
   split at hs
-  · split at hs <;> cases hs <;> wframe hi
+  · split at hs
+    · cases hs; wframe hi
+    · cases hs; wframe hi
+    · cases hs; wframe hi
+    · split at hs <;> cases hs
+      wframe hi
   · cases hs
 
 theorem wEnc_frame {P : Params} {s s' : St} {i : Nat} {full : Bool} {newOut : Nat} (hs : wEnc P s i full newOut = some s') : WFrame s s' := by
